@@ -69,7 +69,8 @@ def run_scratch(sid, tier="quick"):
     rc, out = sh("patch -p1 -s < %s" % os.path.join(d, "patch.diff"), sc)
     assert rc == 0, out
     t0 = time.time()
-    env = {"VERIF_REPO": sc, "VERIF_TAG": "-" + sid, "VERIF_CACHE": "/var/tmp/conjure-verif-cache-seed-" + sid}
+    env = {"VERIF_REPO": sc, "VERIF_TAG": "-" + sid, "VERIF_CACHE": "/var/tmp/conjure-verif-cache-seed-" + sid,
+           "VERIF_EVIDENCE_DIR": os.path.join(V, "logs", "seed-evidence-" + sid)}
     try:
         rc, out = sh("./check %s --tier %s" % (prop, tier), V, env=env, timeout=7200)
     finally:
